@@ -55,3 +55,18 @@ func TestRegressRestoredWalletKnowsFeesOfRetiredKeysets(t *testing.T) {
 		sendCase(tbT{t}, sp)
 	}
 }
+
+// F37: the fee was rounded up once for the inactive-keyset proofs and once more for the active-keyset proofs; the mint
+// rounds once over all inputs. A send of balance - fee(all proofs) failed with "insufficient funds".
+func TestRegressFeeRoundedOncePerSelection(t *testing.T) {
+	for i, sp := range []spec{
+		{Fees: []uint{100, 100}, Amounts: [][]uint64{{1, 1, 1}, {2, 2}}, Amount: 6, IncludeFees: false},
+		{Fees: []uint{500, 500}, Amounts: [][]uint64{{4}, {8}}, Amount: 11, IncludeFees: false},
+		{Fees: []uint{250, 100, 0}, Amounts: [][]uint64{{2}, {2}, {16}}, Amount: 19, IncludeFees: false},
+	} {
+		sp.CaseSeed = uint64(i)
+		sp.RestartFee = -1
+		rec.NonTrivial(fmt.Sprint("regress_fee_rounded_once_", i))
+		sendCase(tbT{t}, sp)
+	}
+}
